@@ -9,7 +9,8 @@ package uses these methods on); none changes which object is mutated or aliased:
   A @ B                          -> np.dot(A, B)
   X.m(...)   m in REDUCERS|dot   -> np.m(X, ...)
   np.m(X, k)                     -> np.m(X, axis=k)          (m in REDUCERS)
-  np.flatnonzero(c)              -> np.where(c)[0]
+  X, = np.where(c)               -> X = np.flatnonzero(c)      (unpacking a 1-tuple means c is one-dimensional)
+  np.where(c.flat)[0], np.where(c.ravel())[0] -> np.flatnonzero(c)
   np.nonzero(c), c.nonzero()     -> np.where(c)
   X.shape[0], np.shape(X)[0], np.size(X, 0), np.size(X, axis=0) -> len(X)
   T[i] = T[i] op E, T[i] = E + T[i]   -> T[i] op= E       (subscript targets only: same element store either way)
@@ -17,6 +18,8 @@ package uses these methods on); none changes which object is mutated or aliased:
   np.transpose(X), X.transpose() -> X.T
   np.multiply/add/subtract/divide/power(a, b) -> a * b, a + b, a - b, a / b, a ** b
   a > b, a >= b                  -> b < a, b <= a            (single comparisons; operand evaluation has no side effects here)
+  not a and not b                -> not (a or b)   (De Morgan, negation outside)
+  np.triu(X, k=1)                -> np.triu(X, 1)
   0 == x, np.inf != x            -> x == 0, x != np.inf;  b == a -> a == b (operands of == / != in text order)
   dtype='float' / astype('int')  -> dtype=float / astype(int);  X.astype(T) -> np.array(X, dtype=T)   (both copy)
   np.logical_not(a == b)         -> a != b (and vice versa)
@@ -27,7 +30,7 @@ package uses these methods on); none changes which object is mutated or aliased:
 """
 import ast
 
-REDUCERS = {'sum', 'any', 'all', 'max', 'min', 'mean', 'std', 'prod', 'cumsum', 'trace'}
+REDUCERS = {'sum', 'any', 'all', 'max', 'min', 'mean', 'std', 'prod', 'cumsum', 'trace', 'argsort', 'argmax', 'argmin'}
 _NOT_ARRAYS = {'rng', 'random', 'math', 'scipy', 'sp', 'linalg', 'os', 'sys', 'self', 'np', 'numpy', 'due', 'warnings'}
 _BINFUN = {'multiply': ast.Mult, 'add': ast.Add, 'subtract': ast.Sub, 'divide': ast.Div, 'true_divide': ast.Div, 'power': ast.Pow}
 
@@ -228,12 +231,12 @@ class _Spell(ast.NodeTransformer):
                 and len(n.args) == {'repeat': 3, 'stack': 2, 'concatenate': 2, 'delete': 3, 'append': 3, 'take': 3}[a]:
             n.keywords = list(n.keywords) + [ast.keyword(arg='axis', value=n.args[-1])]
             n.args = n.args[:-1]
+        if a in ('triu', 'tril') and len(n.args) == 1 and len(n.keywords) == 1 and n.keywords[0].arg == 'k':
+            n.args = list(n.args) + [n.keywords[0].value]
+            n.keywords = []
         if a in REDUCERS and len(n.args) == 2 and not star and not any(k.arg == 'axis' for k in n.keywords):
             n.keywords = [ast.keyword(arg='axis', value=n.args[1])] + list(n.keywords)
             n.args = [n.args[0]]
-        elif a == 'flatnonzero' and len(n.args) == 1 and not n.keywords:
-            w = ast.Call(func=self._npattr('where'), args=n.args, keywords=[])
-            return ast.copy_location(ast.Subscript(value=ast.copy_location(w, n), slice=ast.Constant(value=0), ctx=ast.Load()), n)
         elif a == 'nonzero' and len(n.args) == 1 and not n.keywords:
             n.func = self._npattr('where')
         elif a == 'size' and not star and ((len(n.args) == 2 and isinstance(n.args[1], ast.Constant) and n.args[1].value == 0 and not n.keywords) or (
@@ -249,8 +252,24 @@ class _Spell(ast.NodeTransformer):
             return ast.copy_location(ast.BinOp(left=n.args[0], op=_BINFUN[a](), right=n.args[1]), n)
         return n
 
+    def _flat_arg(self, e):
+        """X for X.flat / X.ravel() / X.flatten() / np.ravel(X), else None"""
+        if isinstance(e, ast.Attribute) and e.attr == 'flat':
+            return e.value
+        if isinstance(e, ast.Call) and isinstance(e.func, ast.Attribute) and e.func.attr in ('ravel', 'flatten') and not e.args and not e.keywords \
+                and not self._is_np(e.func):
+            return e.func.value
+        if isinstance(e, ast.Call) and self._is_np(e.func, 'ravel') and len(e.args) == 1 and not e.keywords:
+            return e.args[0]
+        return None
+
     def visit_Subscript(self, n):
         self.generic_visit(n)
+        if isinstance(n.ctx, ast.Load) and isinstance(n.slice, ast.Constant) and n.slice.value == 0 and type(n.slice.value) is int \
+                and isinstance(n.value, ast.Call) and self._is_np(n.value.func, 'where') and len(n.value.args) == 1 and not n.value.keywords:
+            x = self._flat_arg(n.value.args[0])
+            if x is not None:
+                return ast.copy_location(ast.Call(func=self._npattr('flatnonzero'), args=[x], keywords=[]), n)
         if isinstance(n.slice, ast.Call) and self._is_np(n.slice.func, 'where') and len(n.slice.args) == 1 and not n.slice.keywords \
                 and self._is_bool(n.slice.args[0]):
             n.slice = n.slice.args[0]           # X[np.where(mask)] is X[mask], for loads and stores alike
@@ -262,6 +281,14 @@ class _Spell(ast.NodeTransformer):
                     return ast.copy_location(ast.Call(func=ast.Name(id='len', ctx=ast.Load()), args=[v.value], keywords=[]), n)
             if isinstance(v, ast.Call) and self._is_np(v.func, 'shape') and len(v.args) == 1 and not v.keywords:
                 return ast.copy_location(ast.Call(func=ast.Name(id='len', ctx=ast.Load()), args=[v.args[0]], keywords=[]), n)
+        return n
+
+    def visit_BoolOp(self, n):
+        self.generic_visit(n)
+        # De Morgan, negation outside: `not a and not b` -> `not (a or b)`, `not a or not b` -> `not (a and b)`
+        if len(n.values) >= 2 and all(isinstance(v, ast.UnaryOp) and isinstance(v.op, ast.Not) for v in n.values):
+            inner = ast.BoolOp(op=ast.Or() if isinstance(n.op, ast.And) else ast.And(), values=[v.operand for v in n.values])
+            return ast.copy_location(ast.UnaryOp(op=ast.Not(), operand=ast.copy_location(inner, n)), n)
         return n
 
     def visit_Compare(self, n):
@@ -286,6 +313,13 @@ class _Spell(ast.NodeTransformer):
 
     def visit_Assign(self, n):
         self.generic_visit(n)
+        if len(n.targets) == 1 and isinstance(n.targets[0], (ast.Tuple, ast.List)) and len(n.targets[0].elts) == 1 \
+                and not isinstance(n.targets[0].elts[0], ast.Starred) and isinstance(n.value, ast.Call) and self._is_np(n.value.func, 'where') \
+                and len(n.value.args) == 1 and not n.value.keywords:
+            # unpacking a 1-tuple: the condition is one-dimensional, so the single index array is np.flatnonzero(cond)
+            c = n.value.args[0]
+            c = self._flat_arg(c) if self._flat_arg(c) is not None else c
+            n = ast.copy_location(ast.Assign(targets=[n.targets[0].elts[0]], value=ast.Call(func=self._npattr('flatnonzero'), args=[c], keywords=[])), n)
         if isinstance(n.value, ast.Constant) and isinstance(n.value.value, bool) and all(
                 isinstance(t, ast.Subscript) and self._is_bool(t.value) for t in n.targets):
             n.value = ast.copy_location(ast.Constant(value=int(n.value.value)), n.value)     # S[V] = False  ==  S[V] = 0 for a boolean array S
@@ -323,7 +357,8 @@ class _Struct(ast.NodeTransformer):
             if isinstance(st, ast.Assign) and len(st.targets) == 1 and isinstance(st.targets[0], ast.Tuple) and isinstance(st.value, ast.Tuple) \
                     and len(st.targets[0].elts) == len(st.value.elts) and all(isinstance(t, ast.Name) for t in st.targets[0].elts) \
                     and not any(isinstance(v, ast.Starred) for v in st.value.elts) \
-                    and not ({t.id for t in st.targets[0].elts} & _names(st.value)):
+                    and all(not ({t.id for t in st.targets[0].elts[:k]} & _names(v)) for k, v in enumerate(st.value.elts)):
+                # (sequential order is safe when no right-hand side reads a name assigned by an earlier element)
                 for t, v in zip(st.targets[0].elts, st.value.elts):
                     out.append(ast.copy_location(ast.Assign(targets=[t], value=v), st))
             elif isinstance(st, ast.Assign) and len(st.targets) > 1 and all(isinstance(t, ast.Name) for t in st.targets) and _is_literal(st.value):
@@ -354,6 +389,9 @@ class _Struct(ast.NodeTransformer):
 
     def visit_If(self, node):
         self.generic_visit(node)
+        if node.orelse and all(isinstance(x, ast.Pass) for x in node.body):
+            node.test = _negate(node.test)            # `if c: pass else: X` -> `if not c: X`
+            node.body, node.orelse = node.orelse, []
         # two-armed conditionals are written with the positive test first: `if not c: A else: B` -> `if c: B else: A`
         if node.body and node.orelse and not (len(node.orelse) == 1 and isinstance(node.orelse[0], ast.If)):
             t = node.test
